@@ -469,6 +469,31 @@ def _o_predefined(name, n, seed, stats):
     return None
 
 
+def _o_big_n(spec, n, seed, stats):
+    """sample sizes beyond a million (not a round number): shape, every row drawn (no all-zero row, last row included),
+    every Rosenblatt-transformed column uniform within the DKW band of that n"""
+    model = make_model(spec)
+    a = np.asarray(model.draw_sample(n, random_state=seed), dtype=float)
+    nd = len(spec["dims"])
+    if a.shape != (n, nd):
+        return ({"clause": "shape", "kind": "large-n"}, "draw_sample(%d) has shape %r" % (n, a.shape))
+    zero = np.all(a == 0, axis=1)
+    if zero.any():
+        return ({"clause": "shape", "kind": "rows-not-drawn"},
+                "draw_sample(%d, random_state=%d): %d rows are all zero (never drawn), the first one is row %d" % (n, seed, int(zero.sum()), int(np.argmax(zero))))
+    if not np.all(np.isfinite(a)):
+        return "unjudged"
+    u = M.spec_rosenblatt(spec, a)
+    eps = dkw(n, nd)
+    for i in range(nd):
+        d = ks_uniform(u[:, i])
+        stats["ks_over_eps_max_large_n"] = max(stats.get("ks_over_eps_max_large_n", 0.0), d / eps)
+        if d > FAR * eps:
+            return ({"clause": "distribution", "kind": "large-n"},
+                    "draw_sample(%d, random_state=%d): column %d does not follow its (conditional) distribution: KS %.5f, DKW band %.5f" % (n, seed, i, d, eps))
+    return None
+
+
 def build_conditional(dimspec):
     import virocon
     import virocon.distributions as vd
@@ -530,6 +555,7 @@ o_redraw = _safe(_o_redraw, "model.draw_sample(n, random_state=Generator)")
 o_statistics = _safe(_o_statistics, "model.draw_sample(n, random_state=seed)")
 o_univariate = _safe(_o_univariate, "dist.draw_sample(n, random_state=seed)")
 o_twin = _safe(_o_twin, "model.draw_sample(n, random_state=seed)")
+o_big_n = _safe(_o_big_n, "model.draw_sample(n > 1e6, random_state=seed)")
 o_predefined = _safe(_o_predefined, "predefined model draw_sample(n, random_state=seed)")
 o_conditional_vector = _safe(_o_conditional_vector, "ConditionalDistribution.draw_sample(n, given_vector, random_state=Generator)")
 
@@ -549,6 +575,8 @@ def replay(ctx, rp):
         o = o_conditional_vector(rp["dimspec"], rp["n"], rp["seed"], rp["givens"], stats)
     elif kind == "predefined":
         o = o_predefined(rp["name"], rp["n"], rp["seed"], stats)
+    elif kind == "big_n":
+        o = o_big_n(rp["spec"], rp["n"], rp["seed"], stats)
     elif kind == "twin":
         o = o_twin(rp["spec"], rp["n"], rp["seed"], rp.get("seed_type", "int"))
     elif kind == "univariate":
@@ -785,6 +813,11 @@ def run(ctx):
             g = rng.uniform(0.3, 4.0)
             neval += 1
             report(o_univariate(dc, nbig, seed, stats, given=g), {"oracle": "univariate", "dimspec": dc, "n": nbig, "seed": seed, "given": g})
+    # sample sizes beyond a million that are not round numbers (marginal_icdf at tail probabilities asks for such samples)
+    for esp, n in ((edge_specs()[2], 1_000_001), (edge_specs()[3], 2_500_000 if ctx.quick() else 3_333_333)):
+        seed = rng.randrange(2 ** 31)
+        neval += 1
+        report(o_big_n(esp, n, seed, stats), {"oracle": "big_n", "spec": esp, "n": n, "seed": seed})
     # every predefined model (fitted to a benchmark data set); the two defined in a transformed space also as TransformedModel
     for name in M.PREDEFINED:
         seed = rng.randrange(2 ** 31)
